@@ -38,6 +38,8 @@ pub(crate) struct GrammarBuilder {
     terminals: BTreeMap<String, Terminal>,
     terminals_matches: BTreeMap<String, (String, TermIndex)>,
     nonterminals: BTreeMap<String, NonTerminal>,
+    /// Names of the rules given by the user.
+    rule_names: BTreeSet<String>,
     productions: ProdVec<Production>,
     next_term_idx: TermIndex,
     next_nonterm_idx: NonTermIndex,
@@ -52,6 +54,7 @@ impl GrammarBuilder {
             terminals: BTreeMap::new(),
             terminals_matches: BTreeMap::new(),
             nonterminals: BTreeMap::new(),
+            rule_names: BTreeSet::new(),
             productions: ProdVec::new(),
             next_term_idx: TermIndex(0),
             next_nonterm_idx: NonTermIndex(0),
@@ -232,6 +235,8 @@ impl GrammarBuilder {
     }
 
     fn extract_productions_and_symbols(&mut self, rules: Vec<GrammarRule>) -> Result<()> {
+        self.rule_names = rules.iter().map(|r| r.name.as_ref().clone()).collect();
+
         // EMPTY non-terminal is implicit
         let nt_idx = self.get_nonterm_idx();
         self.nonterminals.insert(
@@ -475,6 +480,23 @@ impl GrammarBuilder {
                 Some(self.file.clone())
             );
         }
+        // A rule created for a repetition must not be mixed up with a rule or
+        // a terminal of the same name given by the user.
+        let check_name = |name: &Name, ref_type: &Name| -> Result<()> {
+            if self.rule_names.contains(name.as_ref()) || self.terminals.contains_key(name.as_ref())
+            {
+                err!(
+                    format!(
+                        "Name '{}' is used for the rule created for repetition of '{}'.",
+                        name, ref_type
+                    ),
+                    Some(self.file.clone()),
+                    ref_type.span
+                )?
+            }
+            Ok(())
+        };
+
         if let Some(ref op) = gsymref.repetition_op {
             let modifiers = &op.rep_modifiers;
             let modifier = if let Some(modifiers) = modifiers {
@@ -510,6 +532,8 @@ impl GrammarBuilder {
             match op.rep_op {
                 RepetitionOperatorOp::ZeroOrMore => {
                     let one_name = nt_name(&ref_type, &RepetitionOperatorOp::OneOrMore);
+                    check_name(&one_name, &ref_type)?;
+                    check_name(&nt_name(&ref_type, &op.rep_op), &ref_type)?;
                     if !self.nonterminals.contains_key(one_name.as_ref()) {
                         self.create_one(one_name.clone(), &ref_type, &modifier, productions);
                     }
@@ -521,6 +545,7 @@ impl GrammarBuilder {
                 }
                 RepetitionOperatorOp::OneOrMore => {
                     let name = nt_name(&ref_type, &op.rep_op);
+                    check_name(&name, &ref_type)?;
                     if !self.nonterminals.contains_key(name.as_ref()) {
                         self.create_one(name.clone(), &ref_type, &modifier, productions);
                     }
@@ -528,6 +553,7 @@ impl GrammarBuilder {
                 }
                 RepetitionOperatorOp::Optional => {
                     let name = nt_name(&ref_type, &op.rep_op);
+                    check_name(&name, &ref_type)?;
                     if !self.nonterminals.contains_key(name.as_ref()) {
                         self.create_optional(name.clone(), &ref_type, productions);
                     }
